@@ -922,17 +922,26 @@ func c09Stage(c0 *Ctx) {
 		"stage S(src py \"x\",) using (threads = 0.065, mem_gb = 255.999,)",
 		"stage S(src py \"x\",) using (threads = -0.0,)", // roundUpTo maps the negative zero to 0 (clause `range` of HOK)
 		"stage S(src py \"x\",) using (threads = 1e6, vmem_gb = 1e-9,)",
+		"stage S(src py \"x\",) using (mem_gb = 0.5000000001,)",                       // float32: 512 MB, exactly: 513 MB
+		"stage S(src py \"x\",) using (mem_gb = 256.04296875, vmem_gb = -256.042,)", // F29: beyond stageMB32Valid
 	} {
 		accept(c09sDump(t), t)
 	}
 	t0 = time.Now()
 	reqs = nil
 	for _, a := range accepted {
-		reqs = append(reqs, []string{"C09.stagestrsvalid", a.dump}, []string{"C09.wfstagedecl", a.dump})
+		reqs = append(reqs, []string{"C09.stagestrsvalid", a.dump}, []string{"C09.wfstagedecl", a.dump},
+			[]string{"C09.parsestagedecl32", hx(a.text)})
 	}
 	reps = c.Drv.AskBatch(reqs)
 	for i, a := range accepted {
-		hyp, wf := reps[2*i], reps[2*i+1]
+		hyp, wf := reps[3*i], reps[3*i+1]
+		// parseStage32 (mem_gb / vmem_gb through the float32 rounding of the literal) is the real parser
+		if mp32 := c09sCanon(reps[3*i+2]); mp32 != "some "+a.dump {
+			mismatch(kParse, "the syntax.Stage the real parser reads from an accepted text differs from the model's parseStage32 (the reader with the float32 reading of mem_gb/vmem_gb)",
+				"correspondence C09.parsestagedecl32 (Martian.FormatStage.parseStage32 vs the grammar's stage production)",
+				map[string]interface{}{"text": a.text}, "some "+a.dump, mp32)
+		}
 		if !strings.HasPrefix(hyp, "strs=") || !strings.HasPrefix(wf, "wf=") {
 			r.hist("stagedecl:accepted:dump-not-decoded") // e.g. a resource value that is not a whole number of MB
 			continue
